@@ -325,6 +325,7 @@ class Translator:
         for nm, ft, bits, c in fields:
             lines.append('  %s : %s' % (nm, self.lean_ty(ft, c)))
             tys.append(self.typed_term(ft, 's.' + nm, bits))
+        lines.append('deriving DecidableEq, Repr')
         lines.append('/-- every member holds a value of its C++ type -/')
         lines.append('def %s.typed (s : %s) : Bool := %s' % (local, local, conj(*tys) or 'true'))
         return self.add(key, Item(area, local, '\n'.join(lines), 'record', rec))
